@@ -324,9 +324,57 @@ pub fn threads_directors(gs: &GraphSpec, seed: u64, k: usize, runs_per_thread: u
     let apis = apis_where(cfg_b, |a| !a.is_mut());
     let found: Mutex<Vec<Violation>> = Mutex::new(Vec::new());
     let execs = AtomicU64::new(0);
+    let runs_done = AtomicUsize::new(0);
+    let want_ranks = ug.ranks();
     thread::scope(|s| {
+        // one more thread only calls read-only accessors on the same graph while the runs are in
+        // progress; what it reads must always be the truth (C20: runs and readers share only
+        // immutable data), and under TSan / Miri a lazily filled cache would show up as a race
+        {
+            let (g, built, found, runs_done, want_ranks) = (&g, &built, &found, &runs_done, &want_ranks);
+            s.spawn(move || {
+                let mut rounds = 0u32;
+                while runs_done.load(Ordering::SeqCst) < k && rounds < 100_000 {
+                    rounds += 1;
+                    let order: Vec<usize> = g.iter().map(|f| f.idx).collect();
+                    let order_rev: Vec<usize> = g.iter_rev().map(|f| f.idx).collect();
+                    let ranks: Vec<usize> = g.ranks().iter().map(|r| r.0).collect();
+                    let mut pos = vec![usize::MAX; n];
+                    for (i, &f) in order.iter().enumerate() {
+                        if f < n {
+                            pos[f] = i;
+                        }
+                    }
+                    let mut pos_rev = vec![usize::MAX; n];
+                    for (i, &f) in order_rev.iter().enumerate() {
+                        if f < n {
+                            pos_rev[f] = i;
+                        }
+                    }
+                    let ok = order.len() == n
+                        && order_rev.len() == n
+                        && pos.iter().all(|&p| p != usize::MAX)
+                        && pos_rev.iter().all(|&p| p != usize::MAX)
+                        && built.edges.iter().all(|&(a, b, _)| pos[a] < pos[b] && pos_rev[b] < pos_rev[a])
+                        && ranks == *want_ranks
+                        && g.iter_insertion().map(|f| f.idx).eq(0..n);
+                    if !ok {
+                        found.lock().unwrap().push(v("C20", "reader-saw-inconsistent-graph", format!("a thread reading the graph (iter / iter_rev / ranks / iter_insertion) while runs were in progress on other threads saw iter={order:?} iter_rev={order_rev:?} ranks={ranks:?}; g={}", gs.encode())));
+                        return;
+                    }
+                    if rounds % 8 == 0 {
+                        let c = g.clone();
+                        if !(c == *g) {
+                            found.lock().unwrap().push(v("C20", "reader-saw-inconsistent-graph", format!("clone() of the graph taken while runs were in progress compares unequal to it; g={}", gs.encode())));
+                            return;
+                        }
+                    }
+                    thread::yield_now();
+                }
+            });
+        }
         for t in 0..k {
-            let (g, ug, built, found, apis, execs) = (&g, &ug, &built, &found, &apis, &execs);
+            let (g, ug, built, found, apis, execs, runs_done) = (&g, &ug, &built, &found, &apis, &execs, &runs_done);
             s.spawn(move || {
                 let mut rng = Rng::new(mix(seed, t as u64));
                 let mut prof = RunProfile::new(apis.clone());
@@ -346,9 +394,11 @@ pub fn threads_directors(gs: &GraphSpec, seed: u64, k: usize, runs_per_thread: u
                             x.detail = format!("[thread {t} run {r} of {} concurrent threads on one graph] {} | g={}|r={}|t={}", k, x.detail, gs.encode(), rs.encode(), tape.encode());
                             f.push(x);
                         }
+                        runs_done.fetch_add(1, Ordering::SeqCst);
                         return;
                     }
                 }
+                runs_done.fetch_add(1, Ordering::SeqCst);
             });
         }
     });
